@@ -5,7 +5,8 @@ eups.app.setup(...) — one forked child per request, histories of requests on o
 Model: lean/EupsModel/Model/Setup.lean through the driver handler "c01".
 Oracle (ii): clauses (a) <P>_DIR is the declared directory, (b) own table contributions present, (c) no element under
 the directory of a version that is not the recorded one, (4) explicit top-level version, (5) closure — all computed
-from the generator's graph and the implementation's environment (harness/lib_setup.py)."""
+from the generator's graph and the implementation's environment (harness/lib_setup.py).
+Oracle (i) includes the command list of eups.app.setup, string by string (Model/SetupEmit.lean)."""
 from . import common
 from . import lib_setup as L
 
@@ -61,6 +62,8 @@ def run(ctx):
     ok = stats.get("ok", 0)
     if done >= 300 and (ok < done * 0.3 or stats.get("switched", 0) < ok * 0.05 or stats.get("c01_prior_ok", 0) < ok * 0.5):
         raise common.InfraError("degenerate distribution: %r of %d requests" % (stats, done))
+    if done >= 300 and (stats.get("sh_compared", 0) < ok * 0.6 or stats.get("sh_quoted", 0) < 20):
+        raise common.InfraError("command lists compared string by string on too few requests: %r of %d" % (stats, done))
 
 
 def replay(ctx, rp):
